@@ -11,22 +11,43 @@ STANDING_ASSUMPTIONS = [
     'termination is proved only where a decreases clause is given',
 ]
 
+GAP = 'local claim: the mechanism functions named in the property anchors carry postconditions taken from the property statement; the lifting from those per-call contracts to ALL histories/schedules is an unproved composition step'
+
 CLAIMED = {
-    'C01': dict(level='proof', assumptions=[
-        'claim is partial: the listed functions are total on hostile trace/CID data; not "the interpreter is total" (parser, beautifier, rkyv check_bytes, recursion depth, allocation inside dependencies are not covered)',
+    'C01': dict(assumptions=[
+        'partial claim: the listed functions are total (no overflow, unwrap/expect on None, out-of-bounds index, unreachable!) on hostile trace/CID data and allocate within STREAM_MAX_SIZE generations; NOT "the interpreter is total": air_parser::parse, to_human_readable_data, Beautifier, rkyv check_bytes, recursion depth and allocation inside dependencies are not covered',
+        'typestate preconditions of ParBuilder/StateInserter/SubTraceLoreCtorQueue (call order driven by FoldFSM/ParFSM/the executor) are assumed',
     ]),
-    'C02': dict(level='proof', assumptions=[
+    'C02': dict(assumptions=[
         'internal failure of the farewell step itself (stream compactification or signing error inside populate_outcome_from_contexts) returns that error\'s code with EMPTY data (F11, DESIGN.md section 5): every C02 contract is stated "unless internal_failure_outcome"',
-        'error-code ranges of to_error_code are taken from job C02.codes (native, exhaustive over the strum discriminants)',
         '"decodable" = the data is the serialization of an envelope; the rkyv/rmp round trip itself is trusted (C27)',
+        'verify / prepare / parse_data / Instruction::execute are external: the claim is about what execute_air_impl and the farewell functions do with their results',
     ]),
-    'C09': dict(level='proof', assumptions=[
-        'local claim: per-state joins and slider restores; whole-trace multiset preservation over par/fold repositioning is an unproved composition step',
-    ]),
-    'C22': dict(level='proof', assumptions=[
-        '"otherwise behaves exactly as an unlimited run" is covered only as: the flags are the only thing the check changes in execute_air_impl',
-    ]),
+    'C05': dict(assumptions=[GAP, '"at most once over a history" = decision table rows (i)-(v) + C06 freshness + C09, composed informally']),
+    'C06': dict(assumptions=[GAP, 'u32 exhaustion of the request id counter is a precondition (lcid < u32::MAX), not handled by the code',
+                             'prepare()/ExecutionCtx::new collections are external; the id plumbing prev_data.lcid -> ctx -> envelope is what is proved']),
+    'C07': dict(assumptions=[GAP]),
+    'C08': dict(assumptions=[GAP, 'par/fold re-positioning over whole traces is not covered']),
+    'C09': dict(assumptions=[GAP, 'whole-trace multiset preservation over par/fold repositioning is not covered; the Left-end restore of a par is deliberately unconstrained (F10)']),
+    'C10': dict(assumptions=[GAP, 'the order in which the executor drives FoldFSM/ParFSM (ghost n0 <= n1 <= n2, monotone positions) is assumed']),
+    'C11': dict(assumptions=[GAP, 'thin: canon join laws only; nothing history-level']),
+    'C12': dict(assumptions=[GAP, 'recursive streams and the call sites of add_value are not covered',
+                             'iterator-based code (slice_iter, iter, retain, update_generations) is outside Verus: covered by the bounded native job C12.compactify on the real Stream + TraceHandler']),
+    'C13': dict(assumptions=[GAP, 'that each replayed/performed append calls add_value exactly once (handlers) and the fold/next executor are not covered',
+                             'RecursiveStreamCursor is covered only by the bounded native job']),
+    'C14': dict(assumptions=[GAP, 'Ed25519, borsh and CidInfo::verify internals are trusted; the attack catalogue over histories is not covered']),
+    'C15': dict(assumptions=[GAP, 'to_count_map (HashMap entry API) is outside Verus: assumed to return the multiset of its argument, checked by the bounded native job C15.count_map']),
+    'C18': dict(assumptions=[GAP, 'behaviour inside par/fold/new is not covered']),
+    'C19': dict(assumptions=[GAP, 'quiescence of finished histories is not covered; dedup is a bounded native check']),
+    'C21': dict(assumptions=['Ord for semver::Version is axiomatised as a strict total order; conformance of that axiom is a native check of a trusted dependency']),
+    'C22': dict(assumptions=['"otherwise behaves exactly as an unlimited run" is covered only as: the flags are the only thing the check changes in execute_air_impl',
+                             'the per-call-result check in make_exec_ctx (closure over HashMap::values) is outside the lifted text']),
+    'C24': dict(assumptions=['JSON arrays/objects are opaque payloads with uninterpreted views (Rc<[JValue]>::get, BTreeMap::get external); canon stream / map first-index selection is not covered']),
+    'C25': dict(assumptions=['second sentence only (verification accepts exactly matching pairs); cid parsing, Multihash and the digest functions are external with uninterpreted results; first sentence (canonical serialisation) not claimed']),
+    'C27': dict(assumptions=['multiformat layer only; unsigned_varint encode/decode external with a round-trip spec; rkyv + check_bytes and rmp_serde are trusted']),
 }
+for _k, _v in CLAIMED.items():
+    _v.setdefault('level', 'proof')
 
 # properties not claimed: reason (DESIGN.md section 3 / 6)
 NOT_APPLICABLE = {
@@ -40,5 +61,4 @@ NOT_APPLICABLE = {
     'C28': 'observable behaviour is bytes written through std::fmt macros; stating anything needs a model of the beautifier, not the beautifier',
 }
 # claimed in DESIGN.md but whose units are not registered yet (kept current as units land)
-PENDING = {k: 'claimed in DESIGN.md; its unit is not registered yet (work in progress)' for k in
-           ['C05', 'C06', 'C07', 'C08', 'C10', 'C11', 'C12', 'C13', 'C14', 'C15', 'C18', 'C19', 'C21', 'C24', 'C25', 'C27']}
+PENDING = {}
